@@ -41,7 +41,7 @@ REACH = {
         "wrap_h2n", "wrap_n2h", "cancelled_but_delivered", "host_failed_run",
         "fault_drop_h2n", "fault_corrupt_h2n", "fault_dup_h2n", "fault_stall_h2n",
         "fault_drop_n2h", "fault_corrupt_n2h", "fault_dup_n2h", "fault_stall_n2h",
-        "window_1", "window_2", "window_3", "send_raised"]
+        "window_1", "window_2", "window_3", "send_raised", "reactive_send_from_upper_layer_callback"]
     for t in ("quick", "thorough")
 }
 SHARD_TIMEOUT = {"quick": 900, "thorough": 3600}
@@ -51,6 +51,7 @@ FAULTS = ["ok", "drop", "corrupt", "dup", "stall"]
 class Upper:
     def __init__(self, trace, clock):
         self.trace, self.clock = trace, clock
+        self.on_up = None
 
     def connection_made(self, p):
         pass
@@ -63,6 +64,8 @@ class Upper:
 
     def data_received(self, data):
         self.trace.append(("h_up", self.clock(), bytes(data)))
+        if self.on_up is not None:
+            self.on_up(bytes(data))
 
     def reset_received(self, code):
         self.trace.append(("h_reset", self.clock(), int(code)))
@@ -96,8 +99,27 @@ def run_case(case):
         tr = HostTransport(line)
         tr.protocol = proto
 
+        nh, nn = case.get("nh", 0), case.get("nn", 0)
+        n_react_h, n_react_n = case.get("reactive", 0), case.get("ncp_reactive", 0)
+        hp = [payload("H", i, rnd) for i in range(nh + n_react_h)]
+        npl = [payload("N", i, rnd) for i in range(nn + n_react_n)]
+        tasks = {}
+        order = []      # host payload indices in the order send_data() was called
+        n_order = []    # NCP payload indices in the order submit() was called
+        nxt = {"h": nh, "n": nn}  # next index of the reactive pools
+
+        def ncp_submit(i):
+            trace.append(("n_submit", clock(), i))
+            n_order.append(i)
+            ncp.submit(npl[i])
+
         def ncp_up(p):
             trace.append(("n_up", clock(), bytes(p)))
+            if nxt["n"] < len(npl):
+                # the NCP answers an incoming payload with one of its own (a response / callback)
+                i = nxt["n"]
+                nxt["n"] += 1
+                ncp_submit(i)
 
         ncp = R.RefNcpAsh(write=lambda b: line.send("n2h", b), call_later=loop.h_call_later,
                           window=case.get("window", 1), on_data=ncp_up, ack_delay=case.get("ack_delay", 0.0))
@@ -112,12 +134,9 @@ def run_case(case):
             return
         line.armed = True
 
-        nh, nn = case.get("nh", 0), case.get("nn", 0)
-        hp = [payload("H", i, rnd) for i in range(nh)]
-        npl = [payload("N", i, rnd) for i in range(nn)]
-        tasks = {}
-
         async def do_send(i):
+            trace.append(("h_call", clock(), i))
+            order.append(i)
             try:
                 await proto.send_data(hp[i])
             except asyncio.CancelledError:
@@ -127,6 +146,15 @@ def run_case(case):
                 trace.append(("h_exc", clock(), i, type(e).__name__))
             else:
                 trace.append(("h_ret", clock(), i))
+
+        def host_react(p):
+            # the upper layer answers an incoming payload with a new send, from inside the callback
+            if nxt["h"] < len(hp):
+                i = nxt["h"]
+                nxt["h"] += 1
+                tasks[i] = asyncio.ensure_future(do_send(i))
+
+        up.on_up = host_react
 
         burst = case.get("burst", 1)
         # cancellation requests: [send index, wire frame index, delay after that frame is emitted]
@@ -144,8 +172,8 @@ def run_case(case):
 
         line.on_frame = on_frame
 
-        def watch_cancel():
-            pass
+        def failed():
+            return any(e[0] == "h_reset" and e[2] != 0x0B for e in trace[-80:])
 
         # submission: host in bursts of `burst` concurrent callers, NCP interleaved
         hi = ni = 0
@@ -158,23 +186,21 @@ def run_case(case):
                     hi += 1
             for _ in range(case.get("nburst", 1)):
                 if ni < nn:
-                    trace.append(("n_submit", clock(), ni))
-                    ncp.submit(npl[ni])
+                    ncp_submit(ni)
                     ni += 1
             # wait until this burst's host callers are finished (cancelled ones count)
             while any(not t.done() for t in tasks.values()):
-                watch_cancel()
-                if any(e[0] == "h_reset" and e[2] != 0x0B for e in trace[-50:]):
+                if failed():
                     break
                 await asyncio.sleep(0.2)
             if gap:
                 await asyncio.sleep(gap)
             if any(e[0] == "h_reset" and e[2] != 0x0B for e in trace):
                 break
-        # let the NCP side drain
+        # let both sides drain (reactive submissions included)
         t_end = clock() + 60
-        while clock() < t_end and (ncp.queue or ncp.unacked) and not ncp.failed:
-            if any(e[0] == "h_reset" and e[2] != 0x0B for e in trace):
+        while clock() < t_end and not ncp.failed and not any(e[0] == "h_reset" and e[2] != 0x0B for e in trace):
+            if not (ncp.queue or ncp.unacked) and all(t.done() for t in tasks.values()):
                 break
             await asyncio.sleep(0.5)
         await asyncio.sleep(8)
@@ -186,7 +212,11 @@ def run_case(case):
         info["ncp_acked"] = list(ncp.acked_payloads)
         info["wraps"] = (ncp.wraps_rx, ncp.wraps_tx)
         info["faults"] = line.faults_applied
-        info["hp"], info["npl"] = hp, npl
+        info["hp_all"] = hp
+        # submission order = the order in which send_data() / submit() were actually called
+        info["hp"] = [hp[i] for i in order]
+        info["npl"] = [npl[i] for i in n_order]
+        info["reactive_sends"] = sum(1 for i in order if i >= nh)
 
     try:
         vloop.run(main)
@@ -217,6 +247,7 @@ def judge(case, trace, info):
     if any(e[0] == "harness_error" for e in trace):
         return [("HARNESS", "handshake failed")], {}
     hp, npl = info.get("hp", []), info.get("npl", [])
+    hp_all = info.get("hp_all", hp)
     n_up = [e[2] for e in trace if e[0] == "n_up"]
     h_up = [e[2] for e in trace if e[0] == "h_up"]
     ok, why = is_subsequence_unique(n_up, hp)
@@ -234,7 +265,7 @@ def judge(case, trace, info):
             n_up_at.setdefault(e[2], []).append(idx)
     for idx, e in enumerate(trace):
         if e[0] == "h_ret":
-            p = hp[e[2]]
+            p = hp_all[e[2]]
             at = n_up_at.get(p, [])
             if len(at) != 1 or at[0] > idx:
                 bad.append(("C01/host-to-ncp/completed-send-not-delivered-once",
@@ -252,8 +283,8 @@ def judge(case, trace, info):
     nfaults = sum(1 for v in case.get("vector", ()) if v != "ok")
     if not case.get("rate") and nfaults <= 3:
         cancelled = {e[2] for e in trace if e[0] in ("h_cancel_req", "h_cancelled")}
-        for i, p in enumerate(hp):
-            if i in cancelled:
+        for i, p in enumerate(hp_all):
+            if i in cancelled or p not in hp:
                 continue
             ret = any(e[0] == "h_ret" and e[2] == i for e in trace)
             if not ret or n_up.count(p) != 1:
@@ -266,7 +297,7 @@ def judge(case, trace, info):
             if h_up.count(p) != 1:
                 bad.append(("C01/progress/ncp-payload-lost", f"NCP payload {p[:6]!r} delivered {h_up.count(p)}x to the host"))
     facts = {
-        "cancelled_delivered": sum(1 for e in trace if e[0] == "h_cancelled" and hp[e[2]] in n_up),
+        "cancelled_delivered": sum(1 for e in trace if e[0] == "h_cancelled" and hp_all[e[2]] in n_up),
         "raised": sum(1 for e in trace if e[0] == "h_exc"),
         "host_failed": any(e[0] == "h_reset" and e[2] != 0x0B for e in trace),
     }
@@ -334,6 +365,8 @@ def run_one(acc: Acc, case):
         for f, n in fs.items():
             acc.hit(f"fault_{f}_{d}", n)
     acc.hit("window_%d" % case.get("window", 1))
+    if info.get("reactive_sends"):
+        acc.hit("reactive_send_from_upper_layer_callback", info["reactive_sends"])
     if any(e[4] != "ok" for e in lines):
         acc.nontrivial(wire_sig(trace))
     acc.ev("frames_on_line", len(lines))
@@ -343,6 +376,7 @@ def run_one(acc: Acc, case):
 
 
 TRAFFIC = {
+    "reactive": dict(nh=2, nn=1, burst=2, nburst=1, reactive=3, ncp_reactive=3, ack_delay=0.02),
     "host": dict(nh=3, nn=0, burst=1),
     "ncp": dict(nh=0, nn=3, nburst=3),
     "both": dict(nh=3, nn=3, burst=1, nburst=1),
